@@ -9,6 +9,7 @@ import (
 	"github.com/julienschmidt/httprouter"
 	"github.com/nsqio/nsq/internal/http_api"
 	"github.com/nsqio/nsq/internal/protocol"
+	"github.com/nsqio/nsq/internal/verif"
 	"github.com/nsqio/nsq/internal/version"
 )
 
@@ -197,6 +198,7 @@ func (s *httpServer) doTombstoneTopicProducer(w http.ResponseWriter, req *http.R
 		thisNode := fmt.Sprintf("%s:%d", p.peerInfo.BroadcastAddress, p.peerInfo.HTTPPort)
 		if thisNode == node {
 			p.Tombstone()
+			verif.Ev("Tombstone", "topic", topicName, "node", node, "id", p.peerInfo.id, "ts", p.tombstonedAt.UnixNano())
 		}
 	}
 
